@@ -542,7 +542,8 @@ impl Runner {
             }
             (Err(e), Ok(())) => {
                 let msg = e.to_string();
-                self.res.violate(prop_for_op(op), "unexpected-error", &format!("unexpected-error:{}:{}", op.kind(), err_class(&msg)), self.step, format!("{} failed: {}", op.brief(), msg));
+                let tags = self.history_tags(op, &[]);
+                self.res.violate(prop_for_op(op), "unexpected-error", &format!("unexpected-error:{}{}:{}", op.kind(), tags, err_class(&msg)), self.step, format!("{} failed: {}", op.brief(), msg));
                 let _ = self.ds.checkout_latest().await;
                 false
             }
